@@ -7,7 +7,7 @@ META = dict(
                        "pydra.engine.job.Job.done / errored / run / run_async", "pydra.compose.workflow.WorkflowOutputs._from_job"],
     stubs=["vf/hl/sched.py: FakeAsyncio (asyncio as seen from pydra.engine.submitter), FakeLoop, ScriptedWorker (public Worker plug-in API)",
            "vf/engine.py (scratch cache root on the real file system, logical clock, untraced cloudpickle/hash of concrete values)"],
-    outside=["real process pools and OS scheduling", "more than 6 nodes / 8 schedule decisions", "workflows nested more than one level"],
+    outside=["dependency is judged at node granularity (a job of node d depends on every job of node s)", "real process pools and OS scheduling", "more than 6 nodes / 8 schedule decisions", "workflows nested more than one level"],
     assumptions=["between two wake-ups of the submitter loop any subset of the submitted jobs may become visibly running and any non-empty "
                  "subset may complete, in either order (cooperative model of a concurrent worker)"],
 )
@@ -26,9 +26,9 @@ def build(tier, seed, exclude):
     quick = tier == "quick"
     to = 110 if quick else 600
     params = ", ".join(f"c{i}: int" for i in range(NS))
-    pre = [" and ".join(f"0 <= c{i} < 3" for i in range(NS))]
+    pre = [" and ".join(f"0 <= c{i} < 4" for i in range(NS))]
     ch = "[" + ", ".join(f"T.real(c{i})" for i in range(NS)) + "]"
-    for shape, nbits in (("indep", 2), ("forkjoin", 2)):
+    for shape, nbits in (("indep", 2), ("forkjoin", 2), ("splitfail", 1)):
         for bits in range(1, 2 ** nbits):
             g.cond(f"h_{shape}_fail{bits}", params, pre, f"""
                 err = AP.c14({shape!r}, {bits}, {ch})
@@ -38,5 +38,5 @@ def build(tier, seed, exclude):
         err = AP.c14("indep", 1, [T.real(c0)])
         return False
     """, timeout=120, kind="twin")
-    return g.spec(bounds={"shapes": ["indep (f | k->m)", "forkjoin (s->(p,q)->j | t->u)"], "failing sets": "every non-empty subset of the failable nodes",
-                          "schedule": f"{NS} ternary decisions, then a fixed default"})
+    return g.spec(bounds={"shapes": ["indep (f | k->m)", "forkjoin (s->(p,q)->j | t->u)", "splitfail (split s with one failing element -> d | i1->i2->i3)"], "failing sets": "every non-empty subset of the failable nodes",
+                          "schedule": f"{NS} four-way decisions, then a fixed default"})
